@@ -1097,6 +1097,9 @@ class Frame:
             r = hook(self, s, it)
             if r is not None:
                 return
+        app = self._append_loop(s, it)
+        if app:
+            return
         items = iterate(self.ctx, it)
         broke = False
         for x in items:
@@ -1110,6 +1113,37 @@ class Frame:
                 continue
         if not broke:
             self.exec_block(s.orelse)
+
+    def _append_loop(self, s, it):
+        """`out = []` ... `for x in <symbolic-length iterable>: out.append(<expr>)` is the list comprehension
+        `[<expr> for x in ...]` when `out` is a fresh empty list that nothing else refers to: treated with the same
+        generic-element rule (one generic index, element-wise obligations)."""
+        if not (isinstance(it, SymList) or (type(it).__name__ == "SymRange" and (is_sym(it.start) or is_sym(it.stop)))):
+            return False
+        if s.orelse or len(s.body) != 1 or not isinstance(s.body[0], ast.Expr):
+            return False
+        call = s.body[0].value
+        if not (isinstance(call, ast.Call) and isinstance(call.func, ast.Attribute) and call.func.attr == "append"
+                and isinstance(call.func.value, ast.Name) and len(call.args) == 1 and not call.keywords):
+            return False
+        name = call.func.value.id
+        ref = self.env.get(name)
+        if not isinstance(ref, Ref):
+            return False
+        o = self.ctx.heap.get(ref.oid)
+        if not isinstance(o, HList) or o.items or o.base is not None or ref.oid in getattr(self.ctx, "entry_snapshot", {}):
+            return False
+        # nothing else may refer to the list (no alias can observe the appends)
+        for k, v in self.env.items():
+            if k != name and isinstance(v, Ref) and v.oid == ref.oid:
+                return False
+        for oid, ob in self.ctx.heap.items():
+            vals = list(ob.fields.values()) if isinstance(ob, HObj) else (list(ob.items) if isinstance(ob, HList) else (list(ob.d.values()) if isinstance(ob, HDict) else []))
+            if any(isinstance(v, Ref) and v.oid == ref.oid for v in vals):
+                return False
+        r = self._comp_over(it, s.target, [], lambda: self.ev(call.args[0]))
+        self.env[name] = self.ctx.new_list(r) if isinstance(r, list) else r
+        return True
 
     def _invariant_loop(self, s, spec, is_for, it=None):
         """classic inductive treatment of a loop with a sidecar invariant:
@@ -1376,6 +1410,10 @@ class Frame:
             r = ch(self, e, it)
             if r is not None:
                 return r
+        return self._comp_over(it, g.target, g.ifs, elt_fn)
+
+    def _comp_over(self, it, target, ifs, elt_fn):
+        g = ast.comprehension(target=target, iter=None, ifs=ifs, is_async=0)
         gen = _generic_iter(self.ctx, it)
         if gen == "empty":
             return []
